@@ -72,10 +72,27 @@ RECURSIVE DecRev(_)
 DecRev(rev) == IF Head(rev) > 0 THEN <<Head(rev) - 1>> \o Tail(rev) ELSE <<9>> \o DecRev(Tail(rev))
 Pred(a) == Norm(Reverse(DecRev(Reverse(Norm(a)))))
 
-\* the 64-bit boundaries
-U64Max == Pred(Pow2(64))      \* 18446744073709551615
-I64MaxPlus1 == Pow2(63)       \* 9223372036854775808 = |i64::MIN|
-I64Max == Pred(Pow2(63))
+\* quotient and remainder of d by a small k: <<quotient digits, remainder>>
+RECURSIVE DivSmallAcc(_, _, _, _)
+DivSmallAcc(d, k, rem, acc) ==
+  IF d = <<>> THEN <<Norm(acc), rem>>
+  ELSE LET cur == rem * 10 + Head(d) IN DivSmallAcc(Tail(d), k, cur % k, Append(acc, cur \div k))
+DivSmall(d, k) == DivSmallAcc(d, k, 0, <<>>)
+
+\* digits of d in radix r (each < r), most significant first
+RECURSIVE ToRadixRev(_, _)
+ToRadixRev(d, r) ==
+  LET qr == DivSmall(d, r) IN
+  IF qr[1] = Zero THEN <<qr[2]>> ELSE <<qr[2]>> \o ToRadixRev(qr[1], r)
+ToRadix(d, r) == Reverse(ToRadixRev(Norm(d), r))
+
+\* the 64-bit boundaries: written out (TLC would otherwise recompute them on every use) and checked
+\* against their definition by the ASSUME below
+U64Max == <<1, 8, 4, 4, 6, 7, 4, 4, 0, 7, 3, 7, 0, 9, 5, 5, 1, 6, 1, 5>>
+I64MaxPlus1 == <<9, 2, 2, 3, 3, 7, 2, 0, 3, 6, 8, 5, 4, 7, 7, 5, 8, 0, 8>>     \* |i64::MIN|
+I64Max == <<9, 2, 2, 3, 3, 7, 2, 0, 3, 6, 8, 5, 4, 7, 7, 5, 8, 0, 7>>
+TwoPow53 == <<9, 0, 0, 7, 1, 9, 9, 2, 5, 4, 7, 4, 0, 9, 9, 2>>
+ASSUME /\ U64Max = Pred(Pow2(64)) /\ I64MaxPlus1 = Pow2(63) /\ I64Max = Pred(Pow2(63)) /\ TwoPow53 = Pow2(53)
 
 \* small natural -> digits
 RECURSIVE OfNatRev(_)
